@@ -44,6 +44,8 @@ func c12Decls() []c12Decl {
 		{ID: "glob-top", IsLit: true, Lit: "*.gen", Glob: "*.gen"},
 		{ID: "glob-nested", IsLit: true, Lit: "gen/*.o", Glob: "gen/*.o"},
 		{ID: "glob-nomatch", IsLit: true, Lit: "nomatch/*", Glob: "nomatch/*"},
+		{ID: "glob-hidden-dir", IsLit: true, Lit: ".cache/*.o", Glob: ".cache/*.o"}, // hidden: designates nothing, and never cache/*.o
+		{ID: "glob-dot-slash", IsLit: true, Lit: "./gen/*.o", Glob: "./gen/*.o"},
 		{ID: "var-rel", Var: "OUT_A", VarRHS: `"o3"`, Rel: "o3"},
 		{ID: "var-rel-nested", Var: "OUT_B", VarRHS: `"sub/o4"`, Rel: "sub/o4"},
 		{ID: "var-join", Var: "OUT_C", VarRHS: `join("sub", "o5")`, Rel: "sub/o5"},
@@ -60,13 +62,14 @@ func c12Decls() []c12Decl {
 }
 
 // the designatable paths of the project tree (bit i of the tree mask = present)
-var c12Paths = []string{"o1", "dir/o2", "a.gen", "b.gen", "gen/x.o", "o3", "sub/o4", "sub/o5", "o1.log", "dir2.tar"}
+var c12Paths = []string{"o1", "dir/o2", "a.gen", "b.gen", "gen/x.o", "o3", "sub/o4", "sub/o5", "o1.log", "dir2.tar", ".cache/y.o", "cache/y.o"}
 
 type c12Case struct {
 	Decls     []string `json:"decls"` // IDs
 	Mask      int      `json:"mask"`
 	CleanTask bool     `json:"clean_task"`
 	Nested    bool     `json:"nested,omitempty"`
+	SpokLink  bool     `json:"spok_link,omitempty"` // the project's spokfile is a symbolic link to a file in another directory
 }
 
 func c12DeclByID(id string) c12Decl {
@@ -144,6 +147,8 @@ func c12Cases(tier string) []c12Case {
 				out = append(out, c12Case{Decls: s, Mask: m, CleanTask: ct})
 			}
 		}
+		// the same with a symlinked spokfile, for the full tree
+		out = append(out, c12Case{Decls: s, Mask: full, SpokLink: true})
 	}
 	return out
 }
@@ -159,7 +164,13 @@ func c12Run(root string, c c12Case) (obs []c12Obs, outcome string) {
 	home := filepath.Join(root, "home")
 	t.File("home/other.txt", "other\n")
 	t.File("home/w/sibling.txt", "sibling\n")
-	t.File(projRel+"/spokfile", c.text())
+	if c.SpokLink {
+		t.File("home/shared/spokfile", c.text())
+		os.Symlink(filepath.Join(root, "home/shared/spokfile"), filepath.Join(proj, "spokfile"))
+		os.Lchown(filepath.Join(proj, "spokfile"), 65534, 65534)
+	} else {
+		t.File(projRel+"/spokfile", c.text())
+	}
 	t.File(projRel+"/src.txt", "src\n")
 	t.File(projRel+"/keep.txt", "keep\n")
 	t.File(projRel+"/gen/keep.txt", "keep\n")
